@@ -762,7 +762,12 @@ def _canon(o):
             # SCOPE has one attribute per scope and none for ANY: "any" is all seven, an absent one is false
             every = bool(o.scopes.get('ANY'))
             o.scopes = NocaseDict([(k, every or bool(o.scopes.get(k))) for k in ALL_SCOPES])
-        elif isinstance(o, (CIMProperty, CIMParameter)):
+        elif isinstance(o, CIMMethod):
+            # PARAMETER / PARAMETER.ARRAY have no EmbeddedObject attribute: in a parameter declaration only the
+            # EmbeddedInstance / EmbeddedObject qualifier says so
+            for prm in o.parameters.values():
+                prm.embedded_object = None
+        if isinstance(o, (CIMProperty, CIMParameter)):
             # an embedded instance is an INSTANCE element: its path is not part of the value
             for e in (o.value if isinstance(o.value, list) else [o.value]):
                 if isinstance(e, CIMInstance):
@@ -1035,7 +1040,7 @@ def classify(op, args, kwargs, oa, ow, d):
             ow[3][-1] == 'appendChild' and any(has_none_entry(v) for v in invoke_values(args, kwargs)):
         return K_NULLENTRY
     if op == 'InvokeMethod' and oa[0] == 'exc' and oa[1] in ('TypeError', 'ValueError') and 'cimtype' in oa[3] and \
-            ow[0] in ('ok', 'cim') and any(v is None or v == [] for v in kwargs.values()):
+            ow[0] in ('ok', 'cim') and any(v is None or (isinstance(v, list) and not v) for v in kwargs.values()):
         return K_MOCKNULL
     if ow[0] == 'facade' and ow[1] == 'request-not-parsable' and "Invalid top-level element 'VALUE.OBJECTWITH" in ow[2] \
             and embedded_with_path(args):
